@@ -9,6 +9,7 @@ package main
 import (
 	"context"
 	"fmt"
+	"strconv"
 	"strings"
 	"time"
 
@@ -97,3 +98,55 @@ func (e *tailConcEngine) run(payload string) string {
 func (e *tailConcEngine) classify(payload, obs string) string {
 	return strings.Fields(payload + " ?")[0] + "/" + strings.SplitN(obs, "\t", 2)[0]
 }
+
+// engine "taillong" (C08): "tail-recursive loops of any length complete" — loops written with cond / and / or running for
+// more than a million macro expansions inside ONE evaluation (no per-evaluation budget of expansions, steps or
+// iterations can be right).  Harness-side oracle: the value.
+type tailLongEngine struct{}
+
+func init() { register("taillong", &tailLongEngine{}) }
+
+func (e *tailLongEngine) leanName() string { return "nomodel" }
+
+var tailLongPrograms = []string{
+	"(do (def lp (fn [n acc] (cond (< n 1) acc true (lp (- n 1) (+ acc 1))))) (lp %d 0))",
+	"(do (def lp (fn [n acc] (or (and (< n 1) acc) (lp (- n 1) (+ acc 1))))) (lp %d 0))",
+	"(do (def lp (fn [n acc] (if (< n 1) acc (-> n (- 1) (lp (+ acc 1)))))) (lp %d 0))",
+}
+
+func (e *tailLongEngine) generate(r *rng, n int, tier string, emit func(string)) {
+	emit("prog=0 n=560000")
+	if tier == "thorough" {
+		emit("prog=1 n=600000")
+		emit("prog=2 n=1200000")
+		emit("prog=0 n=2300000")
+	}
+}
+
+func (e *tailLongEngine) caseTimeout() time.Duration { return 10 * time.Minute }
+
+func (e *tailLongEngine) run(payload string) string {
+	var p, n int
+	if _, err := fmt.Sscanf(payload, "prog=%d n=%d", &p, &n); err != nil || p < 0 || p >= len(tailLongPrograms) || n < 1 || n > 50000000 {
+		return "bad-case"
+	}
+	ec := &evalCase{}
+	env, err := freshEnv(ec)
+	if err != nil {
+		return "setup-error"
+	}
+	ast, err := lisp.READ(fmt.Sprintf(tailLongPrograms[p], n), nil, env)
+	if err != nil {
+		return "setup-error"
+	}
+	v, err := lisp.EVAL(context.Background(), ast, env)
+	if err != nil {
+		return "err\t!a tail-recursive loop of " + strconv.Itoa(n) + " iterations did not complete: " + oneLine(err.Error())[:min(len(oneLine(err.Error())), 200)]
+	}
+	if got, ok := v.(int); !ok || got != n {
+		return "wrong\t!a tail-recursive loop of " + strconv.Itoa(n) + " iterations returned " + render(v)
+	}
+	return "ok"
+}
+
+func (e *tailLongEngine) classify(payload, obs string) string { return strings.SplitN(obs, "\t", 2)[0] }
